@@ -33,8 +33,8 @@ var unmodelled = map[string]bool{"PROTOVALIDATE": true}
 type built struct {
 	image bufimage.Image
 	texts map[string]string
-	spans map[string]map[string]span // file -> path key -> span
-	index map[string]map[span]string // file -> span -> path key
+	spans map[string]map[string]span   // file -> path key -> span
+	index map[string]map[span][]string // file -> span -> path keys (several only for groups)
 }
 
 // build renders the workspace and compiles it with buf's own image builder; the import-only
@@ -46,7 +46,7 @@ func build(w *wsT) (b *built, err error) {
 			err = fmt.Errorf("panic in build: %v", r)
 		}
 	}()
-	b = &built{texts: map[string]string{}, spans: map[string]map[string]span{}, index: map[string]map[span]string{}}
+	b = &built{texts: map[string]string{}, spans: map[string]map[string]span{}, index: map[string]map[span][]string{}}
 	target := map[string][]byte{}
 	dep := map[string][]byte{}
 	for _, f := range w.files {
@@ -212,8 +212,8 @@ func (l *linter) lint(b *built, c lintCfg) (anns []annT, err error) {
 		s := span{fa.StartLine(), fa.StartColumn(), fa.EndLine(), fa.EndColumn()}
 		if s == (span{1, 1, 1, 1}) {
 			a.path = "" // reported without a location
-		} else if key, ok := b.index[a.file][s]; ok {
-			a.path = key
+		} else if keys, ok := b.index[a.file][s]; ok {
+			a.path = resolveSpan(keys, a.rule)
 		} else {
 			a.path = fmt.Sprintf("unknown-position-%d:%d-%d:%d", s.sl, s.sc, s.el, s.ec)
 		}
@@ -342,19 +342,25 @@ func allUse(v bufconfig.FileVersion) []string {
 	return use
 }
 
+// optionSets: every option alone and in ASYMMETRIC combinations (only one of the two
+// allow_google_protobuf_empty_* flags, with and without allow_same; one custom suffix without the
+// other), so a rule that consults the wrong option, or both, changes some verdict.
 var optionSets = []lintOpts{
 	{},
-	{},
-	{zeroSuffix: "_NONE", svcSuffix: "API"},
 	{allowEmptyReq: true},
 	{allowEmptyResp: true, svcSuffix: "Endpoint"},
+	{zeroSuffix: "_NONE", svcSuffix: "API"},
 	{allowSame: true, allowEmptyReq: true, allowEmptyResp: true},
 	{zeroSuffix: "_ZERO", allowSame: true},
+	{allowSame: true, allowEmptyResp: true},
+	{allowSame: true, allowEmptyReq: true, svcSuffix: "Handler"},
+	{allowEmptyReq: true, allowEmptyResp: true},
+	{},
 }
 
 func sectionB(run *hx.Run, r *hx.Rand) {
 	l := newLinter()
-	nws := run.N(8, 20)
+	nws := run.N(10, 20)
 	for wi := 0; wi < nws; wi++ {
 		rr := r.Fork(uint64(wi))
 		o := optionSets[wi%len(optionSets)]
